@@ -193,16 +193,18 @@ def check_binding(c, L, book, integ, x0_expected, label=""):
                     "parameters in force during integration are the supplied values mapped through target_param" + label)
 
 
-def cost_unit(kind, sel, tp, n, weighted=False, spread_form="scalar", entry="cost", ts_sel=None, time_kind="sym", y_kind="sym", x0_kind="sym"):
+def cost_unit(kind, sel, tp, n, weighted=False, spread_form="scalar", entry="cost", ts_sel=None, time_kind="sym", y_kind="sym", x0_kind="sym", aw=True):
+    """aw=False: the documented option apply_weighting=False -- the loss of the UNweighted residuals although the object has weights"""
     def h(c):
+        akw = {} if aw else {"apply_weighting": False}
         if c.mode == "sym":
             with stubs.integrator_stubs(c, eig="fixed") as book, stubs.patched(*loss_patches(c)):
                 L = build_loss(c, kind, sel, tp, ts_sel, n, weighted, spread_form, time_kind, y_kind, x0_kind)
                 x0_used = list(L.x0)
                 if entry == "cost":
-                    out = L.obj.cost(L.theta_arg)
+                    out = L.obj.cost(L.theta_arg, **akw)
                 elif entry == "residual":
-                    out = L.obj.residual(L.theta_arg)
+                    out = L.obj.residual(L.theta_arg, **akw)
                 else:
                     # costIV: parameters followed by the initial values of the target states
                     tsn = ts_sel if ts_sel is not None else STATES
@@ -210,7 +212,7 @@ def cost_unit(kind, sel, tp, n, weighted=False, spread_form="scalar", entry="cos
                     L.x0_free = [c.real("iv_%s" % s, lo=1, hi=10) for s in tsn] if x0_kind == "sym" else [3.25 + 1.5 * k_ for k_ in range(len(tsn))]
                     for s, v in zip(tsn, L.x0_free):
                         x0_used[STATES.index(s)] = v
-                    out = L.obj.costIV(arr(c, list(L.theta) + L.x0_free))
+                    out = L.obj.costIV(arr(c, list(L.theta) + L.x0_free), **akw)
                 integ, fl = last_flow(book)
                 check_binding(c, L, book, integ, x0_used)
                 rows = [book.at(fl, ti) for ti in L.t]
@@ -218,19 +220,21 @@ def cost_unit(kind, sel, tp, n, weighted=False, spread_form="scalar", entry="cos
             L = build_loss(c, kind, sel, tp, ts_sel, n, weighted, spread_form, time_kind, y_kind, x0_kind)
             x0_used = [float(v) for v in L.x0]
             if entry == "cost":
-                out = L.obj.cost(L.theta_arg)
+                out = L.obj.cost(L.theta_arg, **akw)
             elif entry == "residual":
-                out = L.obj.residual(L.theta_arg)
+                out = L.obj.residual(L.theta_arg, **akw)
             else:
                 tsn = ts_sel if ts_sel is not None else STATES
                 L.x0_free = [c.real("iv_%s" % s, lo=1, hi=10) for s in tsn] if x0_kind == "sym" else [3.25 + 1.5 * k_ for k_ in range(len(tsn))]
                 for s, v in zip(tsn, L.x0_free):
                     x0_used[STATES.index(s)] = v
-                out = L.obj.costIV(np.array(list(L.theta) + L.x0_free))
+                out = L.obj.costIV(np.array(list(L.theta) + L.x0_free), **akw)
             rows = ref_solution([L.bound["beta"], L.bound["gamma"]], x0_used, L.t0, L.t)
         yhat = [[rows[i][k] for k in L.idx] for i in range(L.n)]
         c.reachable("loss evaluated")
         check_purity(c, L)
+        if not aw:
+            L.w = [[1 for _ in row] for row in L.w]        # the reference for apply_weighting=False: unit weights
         if entry == "residual":
             ref = [[(L.y[i][j] - yhat[i][j]) * L.w[i][j] for j in range(len(sel))] for i in range(n)]
             got = np.asarray(out, dtype=object)
@@ -242,7 +246,7 @@ def cost_unit(kind, sel, tp, n, weighted=False, spread_form="scalar", entry="cos
             total, _ = ref_cost(c, L, yhat)
             c.prove(near(out, total, c, tol=2e-5), "%s == loss formula on (y[i,j], x_{state_name[j]}(t_i))" % entry)
     return Unit("C06.%s[%s,states=%s,target=%s,n=%d,w=%s,spread=%s,ts=%s%s]" % (entry, kind, "+".join(sel), "all" if tp is None else "+".join(tp), n, weighted, spread_form, ts_sel,
-                                                                              ("" if time_kind == "sym" else ",times=" + time_kind) + ("" if y_kind == "sym" else ",y=" + y_kind) + ("" if x0_kind == "sym" else ",x0=" + x0_kind)), h,
+                                                                              ("" if time_kind == "sym" else ",times=" + time_kind) + ("" if y_kind == "sym" else ",y=" + y_kind) + ("" if x0_kind == "sym" else ",x0=" + x0_kind) + ("" if aw else ",apply_weighting=False")), h,
                 bounds={"model": "S,J,R / beta,gamma", "times": n, "time_inputs": "symbolic reals" if time_kind == "sym" else "concrete %s 1..n with t0=0.5" % time_kind, "observed_states": list(sel), "target_param": tp, "weights": "symbolic" if weighted else "unit",
                         "spread": spread_form, "x0": "symbolic reals" if x0_kind == "sym" else "typed: %s" % x0_kind}, program={"loss": kind, "sel": list(sel), "tp": tp}, tol=2e-5, max_paths=400)
 
@@ -351,7 +355,7 @@ class C06(Check):
                    "and that the parameter values, x0 and initial time in force during integration are the supplied ones.  Typed units enumerate "
                    "what a real number cannot express: integer-typed observation times (array/list) with a fractional t0, int64 observations, "
                    "and every accepted weight form (full matrix, per-state vector, single scalar); a typed initial state (the caller's float64 array, Python ints, an int64 array) "
-                   "with inferred initial values, and the arrays handed in by the caller come back unchanged.")
+                   "with inferred initial values, and the arrays handed in by the caller come back unchanged; the documented option apply_weighting=False on weighted objects.")
     stubs = ["scipy.integrate.ode contract (measured buffer policy)", "np.linalg.eig fixed (constructor only)", "scipy.stats.poisson.logpmf closed form", "gammaln -> lgamma UF"]
     assumptions = ["integrator accuracy (C02's assumption)", "floats as reals", "valid domain (positive predictions/observations for likelihood losses)"]
 
@@ -372,6 +376,11 @@ class C06(Check):
         us.append(cost_unit("Square", ("J", "S"), None, 2, entry="costIV"))
         us.append(cost_unit("Square", ("S",), ("gamma",), 2, entry="costIV", ts_sel=("R", "S")))
         us.append(cost_unit("Normal", ("R", "J"), None, 2, entry="costIV", ts_sel=("J",)))
+        # the documented option apply_weighting=False on weighted objects, every entry point
+        us.append(cost_unit("Square", ("J", "S"), None, 2, weighted=True, entry="cost", aw=False))
+        us.append(cost_unit("Normal", ("R", "J"), ("gamma",), 2, weighted=True, entry="costIV", ts_sel=("J",), aw=False))
+        us.append(cost_unit("Square", ("S",), None, 2, weighted=True, entry="costIV", aw=False))
+        us.append(cost_unit("Square", ("R", "J"), None, 2, weighted=True, entry="residual", aw=False))
         # typed initial state (the caller's float64 array) with an initial-value evaluation: the caller's array stays as it was
         us.append(cost_unit("Square", ("J",), None, 2, entry="costIV", ts_sel=("J", "S"), x0_kind="float64"))
         us.append(cost_unit("Square", ("R", "J"), ("gamma",), 2, entry="cost", x0_kind="float64"))
